@@ -20,7 +20,7 @@ proved (`database_resource_not_injective`), the collisions are characterised exa
 (`database_resource_collisions_exactly`) and injectivity is proved where it holds
 (`database_resource_injective_partial`).
 -/
-import Kap.Proofs.C20Bounds
+import Kap.Proofs.C20Api
 namespace Kap.Props.C20
 open Kap.C20 Kap.C20.Spec
 
@@ -354,15 +354,72 @@ theorem preview_depth_one (cfg : Cfg) (hextra : ∀ r ∈ cfg.extra, r.kind = .r
     serveHTTP cfg (f + 2) req = serveHTTP cfg 2 req ∧ (serveHTTP cfg (f + 2) req).status ≠ 508 :=
   ⟨serveHTTP_depth cfg hextra f req, serveHTTP_never_exhausted cfg hextra f req⟩
 
-/-- STATED, not proved (checked by the driver on every observed request, clause `served-resource-below-api`):
-whatever is served or written was authorised as a resource BELOW "/api" — `APIResource("../x")` leaves the API
-subtree, but the mux never lets such a URL path reach a route handler. Missing: the split/drop lemmas relating
-the elements of `TrimPrefix(path, BasePath)` to those of the clean URL path, and the pattern shapes of added routes. -/
-def served_resource_below_api_stmt : Prop :=
-  ∀ (cfg : Cfg), (∀ r ∈ cfg.extra, r.kind = .recorder ∧ r.bypass = false ∧ (base ++ ['/']).isPrefixOf r.pattern = true) →
-  ∀ (fuel : Nat) (req : Req),
-    ((serveHTTP cfg fuel req).served = true ∨ (serveHTTP cfg fuel req).wrote = true) →
-    ∃ names, nodeOf (apiResource (trimPrefix req.path Gen.basePath)) = some ("api".toList :: names)
+/-- **served_resource_below_api**: whatever is served or written was authorised as a resource BELOW "/api" —
+`APIResource("../x")` leaves the API subtree (next theorem), but no URL path that reaches a route handler does.
+Added routes are the ones `AddRoute` / `AddPreviewRoute` can register (`viaAddRoute`: BasePath or BasePreviewPath
+followed by nothing or by something that begins with '/'; `added_route_without_slash_would_escape` shows that this
+hypothesis — the "route patterns must begin with a '/'" test of AddRoute — is load-bearing). The driver evaluates
+the same clause (`served-resource-below-api`) on every observed request. -/
+theorem served_resource_below_api (cfg : Cfg)
+    (hextra : ∀ r ∈ cfg.extra, r.kind = .recorder ∧ r.bypass = false ∧ viaAddRoute r.pattern = true)
+    (fuel : Nat) (req : Req)
+    (h : (serveHTTP cfg fuel req).served = true ∨ (serveHTTP cfg fuel req).wrote = true) :
+    ∃ names, nodeOf (apiResource (trimPrefix req.path Gen.basePath)) = some ("api".toList :: names) := by
+  cases fuel with
+  | zero => simp [serveHTTP] at h
+  | succ f =>
+    have hx : ExtraOK cfg := fun r hr => ⟨(hextra r hr).1, (hextra r hr).2.1⟩
+    obtain ⟨hcp, _, r, acc, w, hmm, _, _, hcase⟩ :=
+      serveLevel_sound cfg hx (serveHTTP cfg f) req _ (by rw [serveHTTP]) h
+    obtain ⟨hmem, _, hpm⟩ := muxMatch_spec _ _ _ _ hmm
+    have hk : r.kind ≠ .notFound := by
+      rcases hcase with ⟨hk, _, _⟩ | ⟨_, hk, _⟩
+      · rw [hk]; decide
+      · exact hk
+    apply clean_url_below_api req.path hcp
+    rcases List.mem_append.mp hmem with hb | he
+    · exact builtin_match_firstOK r hb hk req.path hpm
+    · exact added_match_firstOK r.pattern req.path (hextra r he).2.2 hpm
+
+/-- **Which URL paths are authorised against a resource outside "/api"?** Of the paths the mux does not
+redirect: exactly "/kapacitor/v1.." and the paths below "/kapacitor/v1../" (TrimPrefix cuts inside the element
+"v1..", leaving a ".." that `path.Join("/api", …)` resolves against "/api"). -/
+theorem resource_escapes_only_behind_v1_dotdot (p : Path) (hc : muxCleanPath p = p) :
+    (∃ names, nodeOf (apiResource (trimPrefix p Gen.basePath)) = some ("api".toList :: names)) ∨
+    p = "/kapacitor/v1..".toList ∨ "/kapacitor/v1../".toList.isPrefixOf p = true := by
+  by_cases h : ∃ names, nodeOf (apiResource (trimPrefix p Gen.basePath)) = some ("api".toList :: names)
+  · exact Or.inl h
+  · right
+    have e1 : Gen.basePath ++ dotdot = "/kapacitor/v1..".toList := by decide
+    have e2 : Gen.basePath ++ dotdot ++ ['/'] = "/kapacitor/v1../".toList := by decide
+    rw [← e1, ← e2]
+    exact clean_url_escape_shape p hc h
+
+/-- … and every such URL path (indeed every path that begins with "/kapacitor/v1..") is matched, among ALL
+routes NewHandler installs (regenerated table), only by the "/" catch-all, whose handler is serve404. -/
+theorem escaping_urls_reach_only_404 (r : Route) (hr : r ∈ builtinRoutes) (p : Path)
+    (hp : "/kapacitor/v1..".toList.isPrefixOf p = true) (hm : pathMatch r.pattern p = true) :
+    r.kind = .notFound ∧ r.pattern = ['/'] := by
+  have e1 : "/kapacitor/v1..".toList = Gen.basePath ++ dotdot := by decide
+  rw [e1] at hp
+  have hk := escaping_url_only_catch_all r hr p hp hm
+  have : ∀ r ∈ builtinRoutes, r.kind = .notFound → r.pattern = ['/'] := by decide
+  exact ⟨hk, this r hr hk⟩
+
+/-- The hypothesis on added routes is needed: a route registered as BasePath + ".." — which `AddRoute` refuses,
+the pattern does not begin with '/' — would be served to a user who holds `read` on "/" only, authorised
+against the ROOT resource. -/
+theorem added_route_without_slash_would_escape :
+    let mallory : Account := { grants := [("/database".toList, [2]), ("/".toList, [2]), ("/api".toList, [])] }
+    let cfg : Cfg := { requireAuth := true, svc := { users := [("mallory".toList, "pw".toList, mallory)] },
+                       extra := [{ method := "GET".toList, pattern := "/kapacitor/v1..".toList, kind := .recorder }] }
+    let req : Req := { method := "GET".toList, path := "/kapacitor/v1..".toList, auth := { header := .basic "mallory".toList "pw".toList } }
+    addRoutePattern base "..".toList = none ∧ viaAddRoute "/kapacitor/v1..".toList = false ∧
+    (serveHTTP cfg 2 req).served = true ∧ apiResource (trimPrefix req.path Gen.basePath) = "/".toList ∧
+    -- the same user is refused everything that IS below /api
+    (serveHTTP { cfg with extra := [{ method := "GET".toList, pattern := "/kapacitor/v1/tasks".toList, kind := .recorder }] } 2
+      { req with path := "/kapacitor/v1/tasks".toList }).status = 403 := by
+  decide
 
 /-- … while the function by itself does leave the subtree (so the mux's redirect is load-bearing). -/
 theorem api_resource_can_escape :
@@ -436,6 +493,27 @@ example :
     (serveHTTP cfg 2 { method := "GET".toList, path := "/kapacitor/v1/debug/vars".toList }).status = 401 ∧
     (serveHTTP { cfg with exposePprof := true } 2 { method := "GET".toList, path := "/kapacitor/v1/debug/vars".toList }).served = true ∧
     (serveHTTP { cfg with exposePprof := true } 2 { method := "GET".toList, path := "/kapacitor/v1/ping".toList }).status = 401 := by
+  decide
+
+-- `served_resource_below_api`: routes as AddRoute / AddPreviewRoute register them satisfy the hypothesis and ARE served
+example :
+    let alice : Account := { grants := [("/api".toList, [2, 4])] }
+    let cfg : Cfg := { requireAuth := true, svc := { users := [("alice".toList, "pw".toList, alice)] },
+                       extra := [{ method := "GET".toList, pattern := "/kapacitor/v1/tasks/".toList, kind := .recorder },
+                                 { method := "GET".toList, pattern := "/kapacitor/v1".toList, kind := .recorder },
+                                 { method := "GET".toList, pattern := "/kapacitor/v1preview/alerts".toList, kind := .recorder }] }
+    let cred : ReqAuth := { header := .basic "alice".toList "pw".toList }
+    (∀ r ∈ cfg.extra, r.kind = .recorder ∧ r.bypass = false ∧ viaAddRoute r.pattern = true) ∧
+    addRoutePattern base "/tasks/".toList = some "/kapacitor/v1/tasks/".toList ∧ addRoutePattern base [] = some base ∧
+    addRoutePattern preview "/alerts".toList = some "/kapacitor/v1preview/alerts".toList ∧
+    (serveHTTP cfg 2 { method := "GET".toList, path := "/kapacitor/v1/tasks/x/y".toList, auth := cred }).served = true ∧
+    (serveHTTP cfg 2 { method := "GET".toList, path := "/kapacitor/v1".toList, auth := cred }).served = true ∧
+    (serveHTTP cfg 2 { method := "GET".toList, path := "/kapacitor/v1preview/alerts".toList, auth := cred }).served = true ∧
+    -- the escaping URLs are mux-clean (hypothesis of `resource_escapes_only_behind_v1_dotdot`) and get the 404
+    muxCleanPath "/kapacitor/v1../database/x".toList = "/kapacitor/v1../database/x".toList ∧
+    apiResource (trimPrefix "/kapacitor/v1../database/x".toList Gen.basePath) = "/database/x".toList ∧
+    (serveHTTP cfg 2 { method := "GET".toList, path := "/kapacitor/v1../database/x".toList, auth := cred }).status = 403 ∧
+    (serveHTTP { cfg with requireAuth := false } 2 { method := "GET".toList, path := "/kapacitor/v1../database/x".toList }).status = 404 := by
   decide
 
 -- `database_resource_injective_partial`: its hypothesis holds for ordinary names
